@@ -17,6 +17,8 @@ if "--tier" in sys.argv:
 skip_tests = "--skip-tests" in sys.argv
 meta = json.load(open(os.path.join(d, "meta.json")))
 prop = meta["property"]
+if "--prop" in sys.argv:
+    prop = sys.argv[sys.argv.index("--prop") + 1]
 env = dict(os.environ, GOFLAGS="-mod=mod", GOPROXY="off", GOSUMDB="off", GOTOOLCHAIN="local")
 wt = "/tmp/seedchk-%s-%d" % (os.path.basename(d), os.getpid())
 def sh(cmd, cwd=None, timeout=3600, extra=None):
@@ -46,8 +48,8 @@ try:
             if c and os.path.isdir(os.path.join(wt, c)):
                 place = c; break
     tags = "-tags purego" if "-tags purego" in (meta.get("demo_run", "") + hdr) else ""
-    mrun = re.search(r"-run[ =]+'?\"?(\^?TestSeed\w+)", hdr + meta.get("demo_run", ""))
-    runre = mrun.group(1) if mrun else "TestSeed"
+    mrun = re.search(r"-run[ =]+'?\"?(\^?Test\w+)", hdr + meta.get("demo_run", ""))
+    runre = mrun.group(1) if mrun else "Test(Seed|C\\d+Demo)"
     res["demo_dir"], res["demo_tags"] = place, tags
     shutil.copy(demo, os.path.join(wt, place, "zz_seed_demo_test.go"))
     democmd = "go test -vet=off -count=1 %s -run '%s' ./%s/" % (tags, runre, place)
@@ -75,14 +77,21 @@ try:
         res["pkg_tests_cmd"], res["pkg_tests_failed"] = cmd, bad
         res["pkg_tests_s"] = round(time.time() - t0, 1)
     t0 = time.time()
-    rc, out = sh("./vcheck run %s --tier %s" % (prop, tier), cwd="/verif", extra={"VERIF_REPO": wt}, timeout=7200)
-    res["check_rc"], res["check_s"] = rc, round(time.time() - t0, 1)
-    res["check_violations"] = [l.strip() for l in out.splitlines() if l.startswith("   ")][:8]
-    res["check_tail"] = out[-800:] if rc not in (0, 1) else ""
+    old = {}
+    if "--demo-only" in sys.argv and os.path.exists(os.path.join(d, "result.json")):
+        old = json.load(open(os.path.join(d, "result.json")))
+        rc = old.get("check_rc", 0)
+        for k in ("check_rc", "check_s", "check_violations", "check_tail"):
+            res[k] = old.get(k)
+    else:
+        rc, out = sh("./vcheck run %s --tier %s" % (prop, tier), cwd="/verif", extra={"VERIF_REPO": wt}, timeout=7200)
+        res["check_rc"], res["check_s"] = rc, round(time.time() - t0, 1)
+        res["check_violations"] = [l.strip() for l in out.splitlines() if l.startswith("   ")][:8]
+        res["check_tail"] = out[-800:] if rc not in (0, 1) else ""
     res["confirmed"] = bool(res["demo_clean_rc"] == 0 and res["apply_rc"] == 0 and res["build_rc"] == 0 and res["demo_patched_rc"] != 0 and not res.get("pkg_tests_failed"))
     res["caught"] = rc == 1
 finally:
     sh("git -C /repo worktree remove --force %s" % wt)
-json.dump(res, open(os.path.join(d, "result.json"), "w"), indent=1)
+json.dump(res, open(os.path.join(d, "result.json" if prop == meta["property"] else "result_%s.json" % prop), "w"), indent=1)
 print(json.dumps({k: res[k] for k in res if k not in ("demo_patched_tail", "check_tail")}, indent=1))
 if res.get("check_tail"): print(res["check_tail"])
